@@ -95,8 +95,10 @@ class DbMonitor:
         self.exch = []  # records of the current op
         self.log = []
         self.armed = False
+        self.violated = False
 
     def v(self, mech, msg):
+        self.violated = True  # the sequence stops here even when this mechanism was already recorded by an earlier sequence
         if len(self.out) < 8 and not any(o["mech"] == mech for o in self.out):
             self.out.append(viol(mech, msg, {"ctx": self.ctx, "ops": [list(map(str, o)) for o in self.log[-60:]], "n_ops": len(self.log)}))
 
@@ -226,6 +228,20 @@ class Driver:
         if slot == "last":
             return lst[-1]
         return lst[slot % len(lst)]
+
+    def deliverable(self, c):
+        """everything between this client and the service is up: a disconnect it sends now must close the connection"""
+        w, cl = self.world, self.client(c)
+        return (cl is not None and cl.operating_state.name == "RUNNING" and self.nodes[c].operating_state.name == "ON"
+                and w.running() and w.node_on() and not w.blocks_client(c))
+
+    def close_by_intent(self, ids, why):
+        for cid in ids:
+            if cid in self.ref.open:
+                # the server never saw the disconnect although everything was up: from here on the id counts as closed
+                self.cov.hit("diag:closed_by_intent_without_server_event", why)
+                self.ref.open.discard(cid)
+                self.ref.closed.add(cid)
 
     def pw_value(self, kind):
         pw = self.pw
@@ -373,19 +389,21 @@ class Driver:
         return f"{k}:{ok}"
 
     def op_disconnect(self, c, slot):
+        cl = self.client(c)
         if slot == "extra":  # keep only the first connection of this client
-            n = 0
-            for conn in self.conns[c][1:]:
-                if conn.is_active:
-                    conn.disconnect()
-                    n += 1
-            return f"{n} disconnected"
-        conn = self.slot(c, slot)
-        if conn is None:
-            return "no-conn"
-        was = conn.is_active
-        conn.disconnect()
-        return f"active {was}->{conn.is_active}"
+            targets = [k for k in self.conns[c][1:] if k.is_active]
+        else:
+            k = self.slot(c, slot)
+            if k is None:
+                return "no-conn"
+            targets = [k]
+        ok = self.deliverable(c)
+        ids = [k.connection_id for k in targets if ok and k.is_active and cl is not None and k.connection_id in cl.client_connections]
+        was = [k.is_active for k in targets]
+        for k in targets:
+            k.disconnect()
+        self.close_by_intent(ids, "disconnect")
+        return f"active {was}->{[k.is_active for k in targets]}"
 
     def op_native(self, c):
         cl = self.client(c)
@@ -408,7 +426,12 @@ class Driver:
         return bool(ok)
 
     def op_uninstall(self, c):
-        return self.req(form("node-application-remove", node_name=c, application_name="database-client"))
+        cl = self.client(c)
+        ids = list(cl.client_connections.keys()) if cl is not None and self.deliverable(c) else []
+        st = self.req(form("node-application-remove", node_name=c, application_name="database-client"))
+        if st == "success":
+            self.close_by_intent(ids, "uninstall")
+        return st
 
     def op_install(self, c):
         st = self.req(form("node-application-install", node_name=c, application_name="database-client"))
@@ -508,7 +531,7 @@ def run_seq(spec, ops, cov, out, ctx):
         d = Driver(spec, cov, out, ctx)
         for op in ops:
             d.apply(tuple(op))
-            if out:  # attribute the violation to the op that introduced it
+            if d.mon.violated:  # attribute the violation to the op that introduced it
                 break
         return d
     finally:
@@ -693,9 +716,9 @@ class Check:
                             continue
                         specs.append({"name": f"exh{depth + 1}-{topo}-{first}-{second}", "kind": "exh", "topo": topo, "pw": "pw", "first": first,
                                       "second": second, "depth": depth + 1})
-        nrand = 48 if quick else 192
+        nrand = 64 if quick else 192
         for s in range(nrand):
-            specs.append({"name": f"rand-{seed * 1000 + s}", "kind": "rand", "seed": seed * 1000 + s, "n": 25 if quick else 60, "len": 45})
+            specs.append({"name": f"rand-{seed * 1000 + s}", "kind": "rand", "seed": seed * 1000 + s, "n": 40 if quick else 60, "len": 45})
         return specs
 
     def run_case(self, spec):
